@@ -119,6 +119,16 @@ Theorem keyword_construction : forall V (fields : list (string * V)) kw, NoDup (
       lookup nm attrs = Some (match lookup nm kw with Some (Some v) => v | _ => d end).
 Proof. exact keyword_construction. Qed.
 Print Assumptions keyword_construction.
+(* T(v1, ..., vk, name=v, ...): positional values fill the first k parameters, keywords the ones they name; a keyword may not name a
+   parameter a positional value already filled (as_keywords names pos = the first k names paired with the positional values) *)
+Theorem mixed_construction : forall V (fields : list (string * V)) pos kw, NoDup (map fst fields) -> length pos <= length fields ->
+  NoDup (map fst (as_keywords V (map fst fields) pos ++ kw)) -> (forall k, In k (map fst kw) -> In k (map fst fields)) ->
+  exists args, bind_args V (generate_init V fields) pos kw = Ok args /\
+    exists attrs, run_init V (generate_init V fields) args = Ok attrs /\
+    forall i nm d, nth_error fields i = Some (nm, d) ->
+      lookup nm attrs = Some (match lookup nm (as_keywords V (map fst fields) pos ++ kw) with Some (Some v) => v | _ => d end).
+Proof. exact mixed_construction. Qed.
+Print Assumptions mixed_construction.
 Print Assumptions positional_construction.
 Print Assumptions equal_exactly_when_same_type_and_all_fields_equal.
 Print Assumptions equal_instances_hash_equally.
